@@ -143,6 +143,19 @@ ext_spec('TlsExtensionTokenBinding', 'token_binding',
 SPECS['TlsKeyShareEntry'] = lambda o: cat(u16(o.f['group']), spec_of(o.f['key_exchange']))
 ext_spec('TlsExtensionKeyShareServer', 'key_share', lambda o: spec_of(o.f['key_share_entry']))
 ext_spec('TlsExtensionKeyShareClientHelloRetry', 'key_share', lambda o: u16(o.f['selected_group']))
+
+
+# RFC 8446 4.2.8: KeyShareClientHello { KeyShareEntry client_shares<0..2^16-1>; } -- the vector is present also when it is empty
+def key_share_entries(o):
+    items = items_of(o)
+    if not isinstance(items, (list, tuple)):
+        raise NoSpec('symbolic key share list')
+    return vec(2, cat(*[spec_of(e) for e in items]))
+
+
+SPECS['TlsKeyShareEntryVector'] = key_share_entries
+ext_spec('TlsExtensionKeyShareClient', 'key_share', lambda o: spec_of(o.f['key_share_entries']))
+ext_spec('TlsExtensionKeyShareReservedClient', 'key_share_reserved', lambda o: spec_of(o.f['key_share_entries']))
 # RFC 6066 8: struct { CertificateStatusType status_type(ocsp=1); ResponderID responder_id_list<0..2^16-1>; Extensions request_extensions; }
 ext_spec('TlsExtensionCertificateStatusRequestClient', 'status_request',
          lambda o: cat(u8(1), vec(2, cat(*[spec_of(r) for r in items_of(o.f['responder_id_list'])])), spec_of(o.f['request_extensions'])))
